@@ -48,12 +48,14 @@ VerifyKey(e) ==
   ELSE IF ~v.ok THEN (IF e.accepted THEN "sig0/verify-accepts-invalid:malformed" ELSE "")
   ELSE IF v.signed # e.signed THEN "trace/verify-signed-octets-differ"       \* sigvalid would be about other octets
   ELSE
-    LET want == Accept0(v, p.labels, e.now, e.sigvalid) IN
+    LET want == e.keyok /\ Accept0(v, p.labels, e.now, e.sigvalid) IN      \* a KEY that is not the signer's key (here: not a key at all) never verifies
     IF e.accepted = want THEN ""
     ELSE IF want THEN (IF v.ar >= 257 THEN "sig0/verify-arcount-high-byte" ELSE "sig0/verify-rejects-valid")
     ELSE "sig0/verify-accepts-invalid:" \o
-         (IF ~e.sigvalid THEN "signature"
+         (IF ~e.keyok THEN "malformed-key"
+          ELSE IF ~e.sigvalid THEN "signature"
           ELSE IF LowerName(v.signer) # LowerName(p.labels) THEN "signer"
+          ELSE IF LexLess(v.exp, v.inc) THEN "inverted-window"
           ELSE IF ~LE4(v.inc, e.now) THEN "not-yet-valid" ELSE "expired")
 
 Key(e) == CASE e.ev = "sign"   -> SignKey(e)
